@@ -345,6 +345,11 @@ theorem first_candidate_ascii (cfg : Config) (hesc : cfg.esc = true) (hrep : cfg
     obtain ⟨s, _, rfl⟩ := hof cl hcl g hg
     exact ofStr_simple s
   obtain ⟨m, hm, _, hlab, hdfs, _, hacyc⟩ := min_struct _ hcls (fun g => ∃ s, s ≠ [] ∧ g = Grapheme.ofStr s) hof
-  exact ⟨m, hm, fmtRegExp_ascii cfg hesc _ (ofDfa_clsAscii cfg hesc m hlab hdfs hacyc)⟩
+  have hlab' : m.PlainLabels := by
+    intro e he
+    obtain ⟨s, hs, hl⟩ := hlab e he
+    show e.label.Plainish
+    rw [hl]; exact Expr.plainish_ofStr s hs
+  exact ⟨m, hm, fmtRegExp_ascii cfg hesc _ (ofDfa_clsAscii cfg hesc m hlab' hdfs hacyc)⟩
 
 end Grexv
